@@ -61,6 +61,11 @@ class SymCtx(Ctx):
         symlibs.h5_reset()
         symnp.CONCRETE_MATH = False
         symnp.F32_EXACT = False
+        L.np_random._global.reset()
+
+    def global_rng(self):
+        """the model of the process-global numpy generator (np.random.*), with a log of (method, params)"""
+        return _NullCtx(self.L.np_random._global)
 
     def f32_visible(self, on=True):
         """make casts to float32 observable (value -> F32(value)) for bit-exactness properties"""
@@ -237,8 +242,43 @@ class ConcreteCtx(Ctx):
         return a if bool(c) else b
 
 
+class _NullCtx:
+    def __init__(self, g):
+        self.g = g
+
+    def __enter__(self):
+        return self.g
+
+    def __exit__(self, *a):
+        return False
+
+
+class _PatchedGlobalRng:
+    """replay: np.random.normal / gamma / ... answer from the counterexample and log their parameters"""
+    NAMES = ("normal", "gamma", "random", "choice", "permutation", "standard_normal")
+
+    def __init__(self, np, values):
+        self.np = np
+        self.g = symlibs.Generator("G", backend=np, source=values)
+        self.saved = {}
+
+    def __enter__(self):
+        for n in self.NAMES:
+            self.saved[n] = getattr(self.np.random, n)
+            setattr(self.np.random, n, getattr(self.g, n))
+        return self.g
+
+    def __exit__(self, *a):
+        for n, o in self.saved.items():
+            setattr(self.np.random, n, o)
+        return False
+
+
 class RealCtx(ConcreteCtx):
     mode = "real"
+
+    def global_rng(self):
+        return _PatchedGlobalRng(self.np, self.values)
 
     def __init__(self, values):
         super().__init__(values)
@@ -277,6 +317,9 @@ class ShimCtx(ConcreteCtx):
         symlibs.h5_reset()
         symnp.CONCRETE_MATH = True
         E.CUR = eng
+        L.np_random._global.reset()
+        L.np_random._global.source = self.values
+        L.np_random._global.backend = _ShimBackend()
 
     def mod(self, name):
         return self.L.load(name)
@@ -291,9 +334,14 @@ class ShimCtx(ConcreteCtx):
     def read_text(self, path):
         return symlibs.MemFiles.files[path]
 
+    def global_rng(self):
+        return _NullCtx(self.L.np_random._global)
+
     def cleanup(self):
         symnp.CONCRETE_MATH = False
         E.CUR = None
+        self.L.np_random._global.source = None
+        self.L.np_random._global.backend = None
 
 
 class _ShimBackend:
